@@ -219,22 +219,36 @@ func scanLevelMod(c *core.Ctx) []ob {
 				return true
 			}
 			sel, ok := unparen(call.Fun).(*ast.SelectorExpr)
-			if !ok || sel.Sel.Name != "Modulus" {
+			if !ok {
 				return true
 			}
-			rt := info.TypeOf(sel.X)
-			if rt == nil || !isRingLikeRecv(rt) {
+			fullProduct := false
+			switch sel.Sel.Name {
+			case "Modulus":
+			case "PBigInt", "QBigInt", "QPBigInt":
+				// the product of the whole chain of the parameters: never the modulus of a level below the maximum
+				if fn := calleeFunc(info, call); fn == nil || fn.Pkg() == nil || !strings.Contains(fn.Pkg().Path(), "lattigo") {
+					return true
+				}
+				fullProduct = true
+			default:
 				return true
 			}
-			if nn := namedOf(rt); nn == nil || nn.Obj().Name() != "Ring" {
-				return true
+			if !fullProduct {
+				rt := info.TypeOf(sel.X)
+				if rt == nil || !isRingLikeRecv(rt) {
+					return true
+				}
+				if nn := namedOf(rt); nn == nil || nn.Obj().Name() != "Ring" {
+					return true
+				}
 			}
 			ord++
 			n++
 			key := fmt.Sprintf("LEVELMOD:%s#%d", fkey, ord)
 			props := levelModProps(fkey)
 			switch {
-			case levelled(sel.X, 0):
+			case !fullProduct && levelled(sel.X, 0):
 				out = append(out, withProps(okOb("LEVELMOD", key, c.Rel(call.Pos()), "Modulus() is taken from a ring cut with AtLevel", true), props...))
 			case !levelDep:
 				out = append(out, withProps(okOb("LEVELMOD", key, c.Rel(call.Pos()), "the function has no level quantity: the full modulus is the only one", false), props...))
